@@ -530,7 +530,9 @@ def rgb_to_hsl(rgb_color):
         h = 0
         s = 0
     else:
-        s = diff / (1 - abs(2 * l - 1))
+        # float rounding can push the quotient a hair above 1 (e.g. 100.00000000000003%),
+        # which is not a valid CSS saturation and is rejected by hsl_to_rgb
+        s = min(1.0, diff / (1 - abs(2 * l - 1)))
 
         if mx == r:
             h = (g - b) / diff % 6
